@@ -14,7 +14,8 @@ type C12Case struct {
 	Streams  []int // indices into the menu
 	Lead     int   // zero bytes before the first stream
 	Pads     []int // zero bytes after each stream (len == len(Streams))
-	Trailing int   // -1 none, else one trailing byte with this value
+	Trailing int   // -1 none, else trailing bytes with this value
+	TailLen  int   `json:",omitempty"` // number of trailing bytes (0 = 1); value 0x100 = first TailLen bytes of a stream header
 	Single   bool
 }
 
@@ -82,7 +83,17 @@ func c12Case(r *core.Run, menu []Stream, p C12Case) {
 		data = append(data, make([]byte, p.Pads[i])...)
 	}
 	if p.Trailing >= 0 {
-		data = append(data, byte(p.Trailing))
+		n := p.TailLen
+		if n == 0 {
+			n = 1
+		}
+		for i := 0; i < n; i++ {
+			if p.Trailing == 0x100 {
+				data = append(data, menu[0].Data[i])
+			} else {
+				data = append(data, byte(p.Trailing))
+			}
+		}
 	}
 	cs := core.MkCase("C12", "concat", p)
 	want, wantErr := c12Expect(menu, p)
@@ -184,10 +195,18 @@ func runC12(r *core.Run) {
 			cases = append(cases, C12Case{Streams: []int{a}, Lead: lead, Pads: []int{0}, Trailing: -1})
 			cases = append(cases, C12Case{Streams: []int{a}, Lead: lead, Pads: []int{0}, Trailing: -1, Single: true})
 		}
-		for _, tr := range []int{1, 0xFD, 0xFF} {
+		for _, tr := range []int{1, 0xFD, 0xFF, 0xA5, 0x100} {
 			for _, pa := range []int{0, 4, 8} {
-				cases = append(cases, C12Case{Streams: []int{a}, Pads: []int{pa}, Trailing: tr})
-				cases = append(cases, C12Case{Streams: []int{a}, Pads: []int{pa}, Trailing: tr, Single: true})
+				for tl := 1; tl <= 11; tl++ {
+					if tl > 1 && tr != 0xA5 && tr != 0x100 {
+						continue
+					}
+					cases = append(cases, C12Case{Streams: []int{a}, Pads: []int{pa}, Trailing: tr, TailLen: tl})
+					cases = append(cases, C12Case{Streams: []int{a}, Pads: []int{pa}, Trailing: tr, TailLen: tl, Single: true})
+					if a < 2 {
+						cases = append(cases, C12Case{Streams: []int{a, 1 - a}, Pads: []int{pa, 4}, Trailing: tr, TailLen: tl})
+					}
+				}
 			}
 		}
 		for b := 0; b < n; b++ {
